@@ -203,6 +203,25 @@ def persistence_rule(F, G, rep):
             f = {x["name"]: tir.place(x["e"]) for x in n["fields"]}
             ok = f.get("hash") == "peppi.slp_hash" and f.get("quirks") == "peppi.quirks"
     rep.ob("persist.read", ok, "io::peppi::de::read", "Game", "the .slpp reader must restore hash and quirks from peppi.json unchanged")
+    # the peppi slot is the deserialised peppi.json value itself (no re-construction / re-formatting on the way)
+    import peppifmt
+    arms, m, loop = peppifmt.reader_arms(F)
+    pa = arms.get("peppi.json")
+    ok = False
+    if pa is not None:
+        src = None
+        for n in tir.walk(pa["body"]):
+            if n.get("k") == "Let" and n["pat"].get("k") == "Bind" and n.get("init") is not None and n["init"].get("k") == "Try":
+                c = strip(n["init"]["e"])
+                if c.get("k") == "Call" and (declared(c) or "").startswith("serde_json::from_reader"):
+                    src = n["pat"]["name"]
+        stores = [n for n in tir.walk(pa["body"]) if n.get("k") == "Assign" and tir.place(n["l"]) == "peppi"]
+        if src and len(stores) == 1:
+            r = strip(stores[0]["r"])
+            ok = r.get("k") == "Call" and (declared(r) or "").endswith("Some") and L.local_name(r["args"][0]) == src
+        muts = [n for n in tir.walk(pa["body"]) if n.get("k") in ("Assign", "AssignOp") and (tir.place(n["l"]) or "").startswith((src or "\0") + ".")]
+        ok = ok and not muts
+    rep.ob("persist.slot", ok, "io::peppi::de::read", "peppi.json", "the peppi slot must hold the deserialised peppi.json value itself; re-building or normalising it on the way can change the stored hash/quirks")
     fb = F.body("io::slippi::de::<impl std::convert::From<io::slippi::de::PartialGame> for game::immutable::Game>::from")
     ok = False
     if fb:
